@@ -46,8 +46,17 @@ def run(prog, R):
             R.anchor_missing(r, 'fasta::Reader function that scans the buffer with slice::split')
         return
     refills = refill_names(prog)
+    done = 0
     for b in cands:
-        analyse(prog, R, b, refills)
+        # only the function with the scan shape (a loop over the pieces of a split of the reader buffer inside
+        # a refill loop) is analysed; other users of slice::split are none of this rule's business
+        if scan_shape(prog, b, refills):
+            analyse(prog, R, b, refills)
+            done += 1
+    if not done:
+        for r in ('SCAN-1', 'SCAN-2', 'SCAN-3'):
+            R.anchor_missing(r, 'fasta::Reader function that scans the pieces of buffer.split(LF) inside a refill loop')
+        return
     R.floor('SCAN-1', 2)
     R.floor('SCAN-2', 3)
     R.floor('SCAN-3', 4)
@@ -56,6 +65,20 @@ def run(prog, R):
 def refill_names(prog):
     from rules_err import refill_fn
     return set(x.key for x in refill_fn(prog))
+
+
+def scan_shape(prog, b, refills):
+    loops = b.cfg.natural_loops()
+    nexts = [x for x, t in b.calls() if t.callee and t.callee.is_('std::iter::Iterator::next') and 'Split' in (t.callee.resolved or '')]
+    if len(nexts) != 1:
+        return False
+    inner = [h for h, blks in loops.items() if nexts[0] in blks]
+    if not inner:
+        return False
+    h_in = min(inner, key=lambda h: len(loops[h]))
+    outer = [h for h, blks in loops.items() if h != h_in and h_in in blks]
+    fills = [x for x, t in b.calls() if prog.local_callee_body(t.callee) is not None and prog.local_callee_body(t.callee).key in refills]
+    return bool(outer) and any(any(x in loops[h] for x in fills) for h in outer)
 
 
 def analyse(prog, R, b, refills):
